@@ -10,7 +10,13 @@
                     asks for something the parent's bytes name);
      3. [c_ops]     run through the mechanism ([c_mech]; the wrappers are given the registry under
                     the dynamic type [c_wrap]); for ReadOnly every read is also run directly on
-                    the underlying registry right afterwards -> [c_direct];
+                    the underlying registry right afterwards -> [c_direct].  When the registry is
+                    handed to the wrapper behind a forwarding value, that value keeps a list of the
+                    method calls that reach the registry, per operation of the history ->
+                    [c_trace]; and it may act for a rival client of the same registry: right after
+                    it has served its n-th call it performs the operations [c_rivals] lists for n
+                    directly on the registry (Immutable only: the wrapper's resolve-push-resolve is
+                    three calls, and somebody else's push may land between any two of them);
      4. [c_threads] (immutable-tags mode only) a batch of goroutines, each running its own list
                     (the harness may delay single operations to aim one goroutine's operation
                     at the span of another's; the delays are not part of the case);
@@ -43,7 +49,9 @@ Record case := {
   c_setup : list op; c_setup_obs : list oresult;
   c_probes : list probe;
   c_before : list oresult;
+  c_rivals : list (N * op);
   c_ops : list op; c_obs : list oresult;
+  c_trace : option (list (list op));
   c_direct : list (option oresult);
   c_threads : list (list ev);
   c_after : list oresult
@@ -75,6 +83,41 @@ Definition mech_step (c : case) : registry state :=
   end.
 
 Definition probe_ops (c : case) : list op := map p_op (c_probes c).
+
+(* ---- a registry that somebody else writes to as well ---- *)
+
+(* a method call of ociregistry.Interface (not an operation on a BlobWriter handed out earlier:
+   those go to the writer object, not through the value the wrapper holds) *)
+Definition has_method (o : op) : bool :=
+  match op_method o with Some _ => true | None => false end.
+
+(* what the rival does right after the n-th call *)
+Definition fired (sch : list (N * op)) (n : N) : list op :=
+  map snd (filter (fun x => N.eqb (fst x) n) sch).
+
+(* [under] behind a door-keeper that counts the method calls it lets through (from 0) and, right
+   after serving the n-th, performs the rival's operations scheduled for n directly on [under].
+   The caller gets the answer of its own call; the state it meets at its next call is the one the
+   rival left. *)
+Definition rival_step {St} (under : registry St) (sch : list (N * op)) : registry (St * N) :=
+  fun sn o =>
+    let '(st1, r) := under (fst sn) o in
+    if has_method o then (final under st1 (fired sch (snd sn)), N.succ (snd sn), r)
+    else (st1, snd sn, r).
+
+(* what a rival may do: push (a deleting rival would break what no wrapper can defend) *)
+Definition is_rival_op (o : op) : bool :=
+  match o with PushBlob _ _ _ | MountBlob _ _ _ | PushManifest _ _ _ _ => true | _ => false end.
+
+(* the calls that reached the registry, as the forwarding value saw them (method calls only) *)
+Definition trace_agrees (tr : option (list (list op))) (m : list (list op)) : bool :=
+  match tr with
+  | None => true
+  | Some t => list_eqb (list_eqb op_eqb) t (map (filter has_method) m)
+  end.
+
+Definition imm_rival (c : case) : tstep (state * N) op :=
+  imm_step (rival_step (wrapped (c_wrap c) (under_step c)) (c_rivals c)) (hash14 (c_orc c)).
 
 (* ReadOnly: the same read, directly on the underlying registry, after the wrapper call *)
 Fixpoint direct_ok (under mechs : registry state) (st : state) (ops : list op)
@@ -134,7 +177,8 @@ Definition orc_wf (o : oracles) : bool :=
      forallb (fun cd' => implb (beqb (snd cd) (snd cd')) (beqb (fst cd) (fst cd'))) (o_hash o)
      && match snd cd with 63 :: _ => false | _ => true end) (o_hash o).
 
-Definition model_agrees (c : case) : bool :=
+(* ReadOnly and immutable-tags mode *)
+Definition model_agrees_seq (c : case) : bool :=
   let under := under_step c in
   let '(s1, rs) := run under init (c_setup c) in
   orc_wf (c_orc c)
@@ -145,6 +189,8 @@ Definition model_agrees (c : case) : bool :=
       agrees_all (c_obs c) ro
       && match c_mech c with
          | MReadOnly => direct_ok under (mech_step c) s1 (c_ops c) (c_direct c)
+                        && trace_agrees (c_trace c)
+                             (map snd (snd (trun (ro_step (wrapped (c_wrap c) under)) s1 (c_ops c))))
          | _ => true
          end
       && match c_mech c with
@@ -153,6 +199,28 @@ Definition model_agrees (c : case) : bool :=
          end
       && lin_search under (total_len (c_threads c)) (c_threads c) s2
            (fun s3 => agrees_all (c_after c) (snd (run under s3 (probe_ops c))))).
+
+(* Immutable: over the registry with the rival behind it (no rival: [c_rivals] empty), results
+   and backend calls operation by operation *)
+Definition model_agrees_imm (c : case) : bool :=
+  let under := under_step c in
+  let '(s1, rs) := run under init (c_setup c) in
+  orc_wf (c_orc c)
+  && forallb is_read_op (probe_ops c)
+  && agrees_all (c_setup_obs c) rs
+  && agrees_all (c_before c) (snd (run under s1 (probe_ops c)))
+  && forallb (fun x => is_rival_op (snd x)) (c_rivals c)
+  && is_nil (c_threads c)
+  && (let '(s2, rt) := trun (imm_rival c) (s1, 0%N) (c_ops c) in
+      agrees_all (c_obs c) (map fst rt)
+      && trace_agrees (c_trace c) (map snd rt)
+      && agrees_all (c_after c) (snd (run under (fst s2) (probe_ops c)))).
+
+Definition model_agrees (c : case) : bool :=
+  match c_mech c with
+  | MImmutable => model_agrees_imm c
+  | _ => model_agrees_seq c
+  end.
 
 (* ------------------------------------------------------------------------------------ *)
 (* The specification, on observations only                                              *)
@@ -191,9 +259,17 @@ Fixpoint ro_events_ok (ops : list op) (obs : list oresult) (direct : list (optio
   | _, _, _ => false
   end.
 
+(* the calls that were seen to reach the registry behind the wrapper: all of them satisfy [p] *)
+Definition traced_all (p : op -> bool) (c : case) : bool :=
+  match c_trace c with
+  | None => true
+  | Some tr => forallb (forallb p) tr
+  end.
+
 Definition clause_readonly (c : case) : bool :=
   ro_events_ok (c_ops c) (c_obs c) (c_direct c)
-  && list_eqb ores_eqb (c_before c) (c_after c).
+  && list_eqb ores_eqb (c_before c) (c_after c)
+  && traced_all is_read_op c.
 
 (* ---- tags: once observed, forever ---- *)
 
@@ -255,6 +331,31 @@ Definition respects (m : mech) (ob : tagobs) (e : ev) : bool :=
 Definition pair_ok (m : mech) (e1 e2 : ev) : bool :=
   match tag_obs m e1 with Some ob => respects m ob e2 | None => true end.
 
+(* Tags a rival of the case pushes under (Immutable over a registry with a rival; otherwise
+   none).  About those the wrapper's user is promised nothing: the rival's push may land after the
+   wrapper has reported the tag - the wrapper is no lock on the registry.  Every other tag is
+   promised everything. *)
+Definition dist (c : case) : list (bytes * bytes) :=
+  flat_map (fun x => match snd x with
+                     | PushManifest r (n :: t) _ _ => [(r, n :: t)]
+                     | _ => []
+                     end) (c_rivals c).
+
+Definition undisturbed (ds : list (bytes * bytes)) (r t : bytes) : bool :=
+  negb (existsb (fun rt => beqb (fst rt) r && beqb (snd rt) t) ds).
+
+Definition tag_obs_d (ds : list (bytes * bytes)) (m : mech) (e : ev) : option tagobs :=
+  match tag_obs m e with
+  | Some ob => if undisturbed ds (to_repo ob) (to_tag ob) then Some ob else None
+  | None => None
+  end.
+
+Definition pair_by (tobs : ev -> option tagobs) (m : mech) (e1 e2 : ev) : bool :=
+  match tobs e1 with Some ob => respects m ob e2 | None => true end.
+
+Definition pair_ok_d (ds : list (bytes * bytes)) (m : mech) : ev -> ev -> bool :=
+  pair_by (tag_obs_d ds m) m.
+
 (* two events of different goroutines: whatever the order, they agree on the binding *)
 Definition weak_ok (m : mech) (e1 e2 : ev) : bool :=
   match tag_obs m e1, tag_obs m e2 with
@@ -281,7 +382,7 @@ Definition prefix_events (c : case) : list ev :=
 Definition suffix_events (c : case) : list ev := combine (probe_ops c) (c_after c).
 
 Definition clause_tags (c : case) : bool :=
-  forallb (fun th => all_later (pair_ok (c_mech c)) (prefix_events c ++ th ++ suffix_events c))
+  forallb (fun th => all_later (pair_ok_d (dist c) (c_mech c)) (prefix_events c ++ th ++ suffix_events c))
           (match c_threads c with [] => [[]] | ths => ths end)
   && cross_weak (c_mech c) (c_threads c).
 
@@ -292,6 +393,16 @@ Fixpoint deletes_denied (ops : list op) (obs : list oresult) : bool :=
   | o :: ops', ob :: obs' =>
       (if is_delete_op o then ores_eqb ob (OErr DENIED) else true) && deletes_denied ops' obs'
   | _, _ => true
+  end.
+
+(* ---- Immutable: a tagged push that succeeds reports the digest of the pushed bytes ---- *)
+
+(* (what the push shows its caller about the tag is the caller's own content, never somebody
+   else's that happens to sit under the tag) *)
+Definition push_digest_ok (hash : bytes -> bytes) (e : ev) : bool :=
+  match e with
+  | (PushManifest _ (_ :: _) content _, OOk (RDesc de)) => beqb (d_digest de) (hash content)
+  | _ => true
   end.
 
 (* ---- what was retrievable stays retrievable, with the same bytes ---- *)
@@ -372,10 +483,18 @@ Fixpoint keep3 (sel : list bool) (before after : list oresult) : bool :=
   | _, _, _ => false
   end.
 
+(* a tag probe on a tag no rival pushes under; every other probe *)
+Definition tag_undisturbed (ds : list (bytes * bytes)) (o : op) : bool :=
+  match o with
+  | GetTag r t | ResolveTag r t => undisturbed ds r t
+  | _ => true
+  end.
+
 Definition clause_keep (c : case) : bool :=
   match c_mech c with
   | MReadOnly => true
-  | MImmutable => keep3 (map (fun p => is_content_probe (p_op p)) (c_probes c)) (c_before c) (c_after c)
+  | MImmutable => keep3 (map (fun p => is_content_probe (p_op p) && tag_undisturbed (dist c) (p_op p)) (c_probes c))
+                        (c_before c) (c_after c)
   | MImmTags => keep3 (map (fun pj => is_tag_probe (p_op (fst pj)) || snd pj)
                            (combine (c_probes c) (justified c))) (c_before c) (c_after c)
   end.
@@ -418,11 +537,28 @@ Definition clause_closed (c : case) : bool :=
   closed_snapshot (c_orc c) (probe_ops c) (c_before c)
   && closed_snapshot (c_orc c) (probe_ops c) (c_after c).
 
+(* ---- retrievable means: the content of that digest ---- *)
+
+(* a digest-addressed read of a snapshot that succeeds hands out a descriptor with the digest
+   asked for, and bytes that hash to it *)
+Definition faithful (orc : oracles) (e : ev) : bool :=
+  match e with
+  | (GetBlob _ d, OOk (RRead de data)) | (GetManifest _ d, OOk (RRead de data)) =>
+      beqb (d_digest de) d && beqb (hash14 orc data) d
+  | _ => true
+  end.
+
+Definition clause_faithful (c : case) : bool :=
+  forallb (faithful (c_orc c)) (combine (probe_ops c) (c_before c))
+  && forallb (faithful (c_orc c)) (combine (probe_ops c) (c_after c)).
+
 Definition obs_ok (c : case) : bool :=
   match c_mech c with
   | MReadOnly => clause_readonly c
   | MImmutable => clause_tags c && deletes_denied (c_ops c) (c_obs c) && clause_keep c
-  | MImmTags => clause_tags c && clause_keep c && clause_closed c
+                  && traced_all (fun o => negb (is_delete_op o)) c && clause_faithful c
+                  && forallb (push_digest_ok (hash14 (c_orc c))) (combine (c_ops c) (c_obs c))
+  | MImmTags => clause_tags c && clause_keep c && clause_closed c && clause_faithful c
   end.
 
 (* ---- non-trivial: the case attempts the change the mechanism must prevent ---- *)
@@ -474,6 +610,15 @@ Definition where_bad (c : case) :=
    first_bad 0 (c_before c) (snd (run under s1 (probe_ops c))),
    first_bad 0 (c_obs c) ro,
    first_bad 0 (c_after c) (snd (run under s2 (probe_ops c)))).
+
+Definition where_bad_imm (c : case) :=
+  let under := under_step c in
+  let '(s1, rs) := run under init (c_setup c) in
+  let '(s2, rt) := trun (imm_rival c) (s1, 0%N) (c_ops c) in
+  (orc_wf (c_orc c), first_bad 0 (c_setup_obs c) rs,
+   first_bad 0 (c_before c) (snd (run under s1 (probe_ops c))),
+   first_bad 0 (c_obs c) (map fst rt), trace_agrees (c_trace c) (map snd rt),
+   first_bad 0 (c_after c) (snd (run under (fst s2) (probe_ops c)))).
 
 From Coq Require Import Lia.
 From OCI Require Import Proofs.MemBasics Proofs.MemInv Proofs.MemImmutable Proofs.MemTagKids Proofs.FilterSelect
@@ -816,6 +961,88 @@ Section AllLater.
   Qed.
 End AllLater.
 
+(* the same for a history whose operations go through one of several doors to the same state
+   (the wrapper, or the registry directly), and for any way [tobs] of reading an observation off
+   an event *)
+Fixpoint runk {St K} (stepk : K -> registry St) (s : St) (h : list (K * op)) : St * list result :=
+  match h with
+  | [] => (s, [])
+  | (k, o) :: h' => let '(s1, r) := stepk k s o in
+                    let '(s2, rs) := runk stepk s1 h' in (s2, r :: rs)
+  end.
+
+Lemma runk_app {St K} (stepk : K -> registry St) s h1 h2 :
+  runk stepk s (h1 ++ h2) =
+  let '(s1, r1) := runk stepk s h1 in let '(s2, r2) := runk stepk s1 h2 in (s2, r1 ++ r2).
+Proof.
+  revert s; induction h1 as [|[k o] h1 IH]; intros s; cbn.
+  - now destruct (runk stepk s h2).
+  - destruct (stepk k s o) as [s1 r]. rewrite IH. destruct (runk stepk s1 h1) as [s2 r1].
+    now destruct (runk stepk s2 h2).
+Qed.
+
+Lemma runk_snd_app {St K} (stepk : K -> registry St) s h1 h2 :
+  snd (runk stepk s (h1 ++ h2)) = snd (runk stepk s h1) ++ snd (runk stepk (fst (runk stepk s h1)) h2).
+Proof.
+  rewrite runk_app. destruct (runk stepk s h1) as [s1 r1]. cbn [fst snd].
+  now destruct (runk stepk s1 h2).
+Qed.
+
+Lemma runk_map {St K} (stepk : K -> registry St) k h : forall s,
+  runk stepk s (map (pair k) h) = run (stepk k) s h.
+Proof.
+  induction h as [|o h IH]; intros s; cbn; [reflexivity|].
+  destruct (stepk k s o) as [s1 r]. now rewrite IH.
+Qed.
+
+Section AllLaterK.
+  Variables St K : Type.
+  Variable stepk : K -> registry St.
+  Variable Good : St -> Prop.
+  Variable m : mech.
+  Variable tobs : ev -> option tagobs.
+  Variable holds : St -> tagobs -> Prop.
+  Hypothesis good_step : forall k st o, Good st -> Good (fst (stepk k st o)).
+  Hypothesis holds_step : forall k st o ob, Good st -> holds st ob -> holds (fst (stepk k st o)) ob.
+  Hypothesis establishes : forall k st o obs ob,
+    Good st -> agrees obs (snd (stepk k st o)) = true -> tobs (o, obs) = Some ob ->
+    holds (fst (stepk k st o)) ob.
+  Hypothesis answers : forall k st o obs ob,
+    Good st -> holds st ob -> agrees obs (snd (stepk k st o)) = true -> respects m ob (o, obs) = true.
+
+  Lemma holds_answers_allk ob : forall ops obs st,
+    Good st -> holds st ob -> agrees_all obs (snd (runk stepk st ops)) = true ->
+    forallb (respects m ob) (combine (map snd ops) obs) = true.
+  Proof.
+    induction ops as [|[k o] ops IH]; intros obs st HG HH Hag; [reflexivity|].
+    destruct obs as [|x obs]; [reflexivity|]. cbn [runk] in Hag.
+    pose proof (good_step k st o HG) as HG'. pose proof (holds_step k st o ob HG HH) as HH'.
+    pose proof (answers k st o x ob HG HH) as Han.
+    destruct (stepk k st o) as [s1 r]. cbn [fst snd] in *.
+    destruct (runk stepk s1 ops) as [s2 rs] eqn:Er. cbn [snd agrees_all] in Hag.
+    apply andb_true_iff in Hag as [H1 H2]. cbn [map snd combine forallb].
+    rewrite (Han H1). cbn. apply (IH obs s1 HG' HH'). now rewrite Er.
+  Qed.
+
+  Theorem all_later_okk : forall ops obs st,
+    Good st -> agrees_all obs (snd (runk stepk st ops)) = true ->
+    all_later (pair_by tobs m) (combine (map snd ops) obs) = true.
+  Proof.
+    induction ops as [|[k o] ops IH]; intros obs st HG Hag; [reflexivity|].
+    destruct obs as [|x obs]; [reflexivity|]. cbn [runk] in Hag.
+    pose proof (good_step k st o HG) as HG'.
+    pose proof (establishes k st o x) as Hes.
+    destruct (stepk k st o) as [s1 r]. cbn [fst snd] in *.
+    destruct (runk stepk s1 ops) as [s2 rs] eqn:Er. cbn [snd agrees_all] in Hag.
+    apply andb_true_iff in Hag as [H1 H2]. cbn [map snd combine all_later].
+    apply andb_true_iff. split.
+    - unfold pair_by at 1. destruct (tobs (o, x)) as [ob|] eqn:Eo.
+      + apply (holds_answers_allk ob ops obs s1 HG' (Hes ob HG H1 eq_refl)). now rewrite Er.
+      + apply forallb_forall. reflexivity.
+    - apply (IH obs s1 HG'). now rewrite Er.
+  Qed.
+End AllLaterK.
+
 (* ---- the hash of a well-formed table is injective ---- *)
 
 Lemma hash14_inj o : orc_wf o = true -> forall a b, hash14 o a = hash14 o b -> a = b.
@@ -1012,135 +1239,10 @@ Section ImmTagsCorr.
   Qed.
 End ImmTagsCorr.
 
-(* ---- the Immutable wrapper over the in-memory registry (any configuration) ---- *)
-
-Section ImmWrapCorr.
-  Variable o : oracles.
-  Variable imm : bool.
-  Hypothesis Hwf : orc_wf o = true.
-
-  Local Notation mstep := (mem14 o imm).
-  Local Notation wstep := (forget (imm_step (mem14 o imm) (hash14 o))).
-  Local Notation InvO := (Inv (hash14 o) (orc_img o) (orc_idx o)).
-  Local Notation cfgI := {| immutable_tags := imm |}.
-
-  Lemma wstep_forward st op :
-    is_delete_op op = false -> is_tagged_push op = false -> wstep st op = mstep st op.
-  Proof.
-    intros Hd Ht. unfold forget. rewrite (imm_forwarded _ _ st op Hd Ht). cbn [fst].
-    now destruct (mem14 o imm st op).
-  Qed.
-
-  Lemma wstep_reads h : forall st,
-    (forall op, In op h -> mem_read op = true) -> run wstep st h = run mstep st h.
-  Proof.
-    intros st H. apply run_ext. intros s op Hin. specialize (H op Hin).
-    apply wstep_forward; destruct op; try discriminate; reflexivity.
-  Qed.
-
-  Lemma good_w_step st op : InvO st -> InvO (fst (wstep st op)).
-  Proof. intros HI. unfold forget. now apply imm_mem_inv. Qed.
-
-  Lemma holds_step_w st op ob : InvO st -> holds st ob -> holds (fst (wstep st op)) ob.
-  Proof.
-    intros HI [tde [Ht [Hd Hb]]]. unfold forget.
-    pose proof (imm_mem_binding_kept (hash14 o) (orc_vd o) (orc_vr o) (orc_vt o) (orc_img o) (orc_idx o) cfgI
-                  st op (to_repo ob) (to_tag ob) (to_digest ob)) as Hk.
-    unfold tagv in Hk. rewrite Ht in Hk. cbn in Hk. specialize (Hk (f_equal Some Hd)).
-    fold (mem14 o imm) in Hk.
-    destruct (itag (fst (fst (imm_step (mem14 o imm) (hash14 o) st op))) (to_repo ob) (to_tag ob)) as [tde'|] eqn:Et';
-      [|discriminate].
-    cbn in Hk. injection Hk as Hk. exists tde'. split; [exact Et'|]. split; [exact Hk|].
-    destruct (to_bytes ob) as [b|]; [|exact I]. destruct Hb as [bl [Hm Hdata]].
-    pose proof (imm_mem_grows (hash14 o) (orc_vd o) (orc_vr o) (orc_vt o) (orc_img o) (orc_idx o) cfgI
-                  (hash14_inj o Hwf) st op (to_repo ob) HI) as Hg.
-    fold (mem14 o imm) in Hg. rewrite iman_repo_of in Hm.
-    destruct (g_man _ _ Hg _ _ Hm) as [bl' [Hm' Hd']].
-    exists bl'. rewrite iman_repo_of. split; [exact Hm' | congruence].
-  Qed.
-
-  Lemma establishes_w st op obs ob :
-    InvO st -> agrees obs (snd (wstep st op)) = true -> tag_obs MImmutable (op, obs) = Some ob ->
-    holds (fst (wstep st op)) ob.
-  Proof.
-    intros HI Hag Hob.
-    destruct op; cbn in Hob; try discriminate.
-    - (* GetTag *)
-      destruct obs as [[]| | | |]; try discriminate. injection Hob as <-.
-      rewrite wstep_forward in * by reflexivity.
-      rewrite (mstep_read_state o imm st (GetTag r t) eq_refl).
-      destruct (gettag_obs o imm st _ _ _ _ Hag) as [tde [bl [Ht [Hm [-> ->]]]]].
-      pose proof (proj1 (inv_iman _ _ _ _ _ _ _ HI Hm)) as Hh.
-      exists tde. cbn. repeat split; [exact Ht | now symmetry |].
-      exists bl. split; [now rewrite Hh | reflexivity].
-    - (* ResolveTag *)
-      destruct obs as [[]| | | |]; try discriminate. injection Hob as <-.
-      rewrite wstep_forward in * by reflexivity.
-      rewrite (mstep_read_state o imm st (ResolveTag r t) eq_refl).
-      exists d. cbn. repeat split. now apply (resolve_obs o imm).
-    - (* PushManifest *)
-      destruct obs as [[]| | | |]; try discriminate. destruct t as [|n t]; [discriminate|].
-      injection Hob as <-. apply agrees_obs_ok in Hag. unfold forget in *.
-      destruct (imm_mem_push_binds (hash14 o) (orc_vd o) (orc_vr o) (orc_vt o) (orc_img o) (orc_idx o) cfgI
-                  st r (n :: t) content media d ltac:(discriminate) Hag) as [Hd Hb].
-      fold (mem14 o imm) in Hb. unfold tagv in Hb.
-      destruct (itag _ r (n :: t)) as [tde'|] eqn:Et'; [|discriminate]. cbn in Hb. injection Hb as Hb.
-      exists tde'. cbn. repeat split; [exact Et' | congruence].
-  Qed.
-
-  Lemma answers_w st op obs ob :
-    InvO st -> holds st ob -> agrees obs (snd (wstep st op)) = true -> respects MImmutable ob (op, obs) = true.
-  Proof.
-    intros HI [tde [Ht [Hd Hb]]] Hag.
-    destruct op; try reflexivity; cbn [respects].
-    - (* GetTag *)
-      destruct (beqb r (to_repo ob) && beqb t (to_tag ob)) eqn:E; [|reflexivity].
-      apply andb_true_iff in E as [E1 E2]. apply beqb_eq in E1, E2. subst r t.
-      rewrite wstep_forward in Hag by reflexivity.
-      pose proof (bound_gettag o imm st _ _ tde obs HI Ht Hag) as Hg.
-      destruct (iman st (to_repo ob) (d_digest tde)) as [bl|] eqn:Hm.
-      + destruct Hg as [-> Hdig]. rewrite Hdig, Hd, beqb_refl. cbn.
-        destruct (to_bytes ob) as [b|]; [|reflexivity]. destruct Hb as [bl0 [Hm0 <-]].
-        rewrite <- Hd, Hm in Hm0. injection Hm0 as ->. apply beqb_refl.
-      + destruct Hg as [c ->]. destruct (to_bytes ob) as [b|]; [|reflexivity].
-        destruct Hb as [bl0 [Hm0 _]]. rewrite <- Hd, Hm in Hm0. discriminate.
-    - (* ResolveTag *)
-      destruct (beqb r (to_repo ob) && beqb t (to_tag ob)) eqn:E; [|reflexivity].
-      apply andb_true_iff in E as [E1 E2]. apply beqb_eq in E1, E2. subst r t.
-      rewrite wstep_forward in Hag by reflexivity.
-      rewrite (bound_resolve o imm st _ _ tde obs Ht Hag). rewrite Hd. apply beqb_refl.
-    - (* PushManifest *)
-      destruct t as [|n t]; [reflexivity|].
-      destruct (beqb r (to_repo ob) && beqb (n :: t) (to_tag ob)) eqn:E; [|reflexivity].
-      apply andb_true_iff in E as [E1 E2]. apply beqb_eq in E1, E2. subst r. rewrite <- E2 in Ht.
-      unfold forget in Hag. rewrite imm_step_spec in Hag.
-      cbn [op_method immutable_declared Model.Immutable.imm_self] in Hag.
-      assert (Hres : mem14 o imm st (ResolveTag (to_repo ob) (n :: t)) = (st, Ok (RDesc tde))).
-      { rewrite (surjective_pairing (mem14 o imm st _)).
-        rewrite (mstep_read_state o imm st (ResolveTag _ _) eq_refl).
-        unfold mem14. now rewrite resolve_tag_res, Ht. }
-      rewrite Hres in Hag. cbn [as_desc] in Hag.
-      destruct (beqb (d_digest tde) (hash14 o content)); cbn [fst snd] in Hag.
-      + apply agrees_model_desc in Hag. subst obs. rewrite Hd, beqb_refl. cbn.
-        now destruct (to_bytes ob).
-      + apply agrees_model_err in Hag. now subst obs.
-  Qed.
-
-  Theorem all_later_w ops obs st :
-    InvO st -> agrees_all obs (snd (run wstep st ops)) = true ->
-    all_later (pair_ok MImmutable) (combine ops obs) = true.
-  Proof.
-    apply (all_later_ok state wstep InvO MImmutable holds).
-    - apply good_w_step.
-    - apply holds_step_w.
-    - apply establishes_w.
-    - apply answers_w.
-  Qed.
-End ImmWrapCorr.
 
 (* ---- what model_agrees says, unpacked ---- *)
 
-Lemma model_agrees_facts c : model_agrees c = true ->
+Lemma model_agrees_facts c : model_agrees_seq c = true ->
   let under := under_step c in
   let s1 := final under init (c_setup c) in
   let s2 := final (mech_step c) s1 (c_ops c) in
@@ -1149,13 +1251,15 @@ Lemma model_agrees_facts c : model_agrees c = true ->
   agrees_all (c_setup_obs c) (snd (run under init (c_setup c))) = true /\
   agrees_all (c_before c) (snd (run under s1 (probe_ops c))) = true /\
   agrees_all (c_obs c) (snd (run (mech_step c) s1 (c_ops c))) = true /\
-  (c_mech c = MReadOnly -> direct_ok under (mech_step c) s1 (c_ops c) (c_direct c) = true) /\
+  (c_mech c = MReadOnly ->
+     direct_ok under (mech_step c) s1 (c_ops c) (c_direct c)
+     && trace_agrees (c_trace c) (map snd (snd (trun (ro_step (wrapped (c_wrap c) under)) s1 (c_ops c)))) = true) /\
   (c_mech c <> MImmTags -> c_threads c = []) /\
   exists M, interleave (c_threads c) M /\
             agrees_all (map snd M) (snd (run under s2 (map fst M))) = true /\
             agrees_all (c_after c) (snd (run under (final under s2 (map fst M)) (probe_ops c))) = true.
 Proof.
-  unfold model_agrees, final. cbn zeta.
+  unfold model_agrees_seq, final. cbn zeta.
   destruct (run (under_step c) init (c_setup c)) as [s1 rs]. cbn [fst snd].
   destruct (run (mech_step c) s1 (c_ops c)) as [s2 ro]. cbn [fst snd].
   intros H.
@@ -1258,13 +1362,29 @@ Proof.
 Qed.
 
 (* the tag clause follows from the ordered-pairs fact on one linearization *)
+Lemma all_later_impl {A} (p q : A -> A -> bool) l :
+  (forall a b, p a b = true -> q a b = true) -> all_later p l = true -> all_later q l = true.
+Proof.
+  intros H. induction l as [|a l IH]; cbn; [reflexivity|]. intros Hl.
+  apply andb_true_iff in Hl as [H1 H2]. apply andb_true_iff. split; [|auto].
+  rewrite forallb_forall in *. auto.
+Qed.
+
+(* an observation that is not looked at cannot be contradicted *)
+Lemma pair_ok_weaken ds m a b : pair_ok m a b = true -> pair_ok_d ds m a b = true.
+Proof.
+  unfold pair_ok, pair_ok_d, pair_by, tag_obs_d. destruct (tag_obs m a) as [ob|]; [|reflexivity].
+  now destruct (undisturbed ds (to_repo ob) (to_tag ob)).
+Qed.
+
 Lemma clause_tags_from_linearization c M :
   interleave (c_threads c) M ->
-  all_later (pair_ok (c_mech c)) (prefix_events c ++ M ++ suffix_events c) = true ->
+  all_later (pair_ok_d (dist c) (c_mech c)) (prefix_events c ++ M ++ suffix_events c) = true ->
+  all_later (pair_ok (c_mech c)) M = true ->
   clause_tags c = true.
 Proof.
-  intros Hil Hal. unfold clause_tags. apply andb_true_iff. split.
-  - assert (Hone : forall j, all_later (pair_ok (c_mech c))
+  intros Hil Hal HalM. unfold clause_tags. apply andb_true_iff. split.
+  - assert (Hone : forall j, all_later (pair_ok_d (dist c) (c_mech c))
                       (prefix_events c ++ nth j (c_threads c) [] ++ suffix_events c) = true).
     { intros j. eapply all_later_subseq; [|exact Hal].
       apply subseq_app; [apply subseq_refl|]. apply subseq_app; [|apply subseq_refl].
@@ -1276,13 +1396,38 @@ Proof.
       - intros th Hin. destruct (In_nth _ _ [] Hin) as [k [_ Hn]]. now exists k. }
     apply forallb_forall. intros th Hin. destruct (Hall th Hin) as [j <-]. apply Hone.
   - apply cross_weak_intro. intros i j Hij a b Ha Hb.
-    assert (HalM : all_later (pair_ok (c_mech c)) M = true).
-    { eapply all_later_subseq; [|exact Hal].
-      change M with ([] ++ M) at 1. apply subseq_app; [apply subseq_nil|].
-      rewrite <- (app_nil_r M) at 1. apply subseq_app; [apply subseq_refl | apply subseq_nil]. }
     destruct (interleave_cross _ _ _ Hil HalM i j Hij a b Ha Hb) as [H|H].
     + now apply pair_weak.
     + rewrite weak_ok_sym. now apply pair_weak.
+Qed.
+
+(* ---- the calls that reached the registry ---- *)
+
+Lemma trun_traces {B} (f : tstep B op) h : forall s l,
+  In l (map snd (snd (trun f s h))) -> exists st o, l = snd (f st o).
+Proof.
+  induction h as [|o h IH]; intros s l; cbn [trun]; [intros []|].
+  destruct (f s o) as [[s1 r] t] eqn:E. specialize (IH s1 l).
+  destruct (trun f s1 h) as [s2 rs]. cbn [snd map] in *. intros [<-|H]; [|auto].
+  exists s, o. now rewrite E.
+Qed.
+
+Lemma traced_sound c m p :
+  trace_agrees (c_trace c) m = true ->
+  (forall l x, In l m -> In x l -> p x = true) -> traced_all p c = true.
+Proof.
+  unfold trace_agrees, traced_all. destruct (c_trace c) as [t|]; [|reflexivity].
+  intros H Hp. apply (list_eqb_eq _ (list_eqb_eq _ op_eqb_eq)) in H. subst t.
+  apply forallb_forall. intros l Hl. apply in_map_iff in Hl as [l0 [<- Hl0]].
+  apply forallb_forall. intros x Hx. apply filter_In in Hx as [Hx _]. eauto.
+Qed.
+
+Lemma run_forget {B} (f : tstep B op) h : forall s,
+  run (forget f) s h = (fst (trun f s h), map fst (snd (trun f s h))).
+Proof.
+  induction h as [|o h IH]; intros s; cbn [run trun]; [reflexivity|]. unfold forget at 1.
+  destruct (f s o) as [[s1 r] t]. cbn [fst]. rewrite IH.
+  now destruct (trun f s1 h) as [s2 rs].
 Qed.
 
 (* ---- ReadOnly ---- *)
@@ -1332,16 +1477,22 @@ Section ReadOnlyCorr.
   Qed.
 End ReadOnlyCorr.
 
-Lemma corr_readonly c : c_mech c = MReadOnly -> model_agrees c = true -> clause_readonly c = true.
+Lemma corr_readonly c : c_mech c = MReadOnly -> model_agrees_seq c = true -> clause_readonly c = true.
 Proof.
   intros Hm H. apply model_agrees_facts in H. cbn zeta in H.
   destruct H as (Hwf & Hreads & Hsetup & Hbefore & Hobs & Hdirect & Hthreads & M & Hil & HM & Hafter).
   rewrite Hthreads in Hil by congruence. apply interleave_nil in Hil. subst M. cbn [map] in *.
   unfold mech_step, under_step, cfg_imm, wrapped in *. rewrite Hm in *.
-  unfold clause_readonly. apply andb_true_iff. split.
-  - eapply ro_events_sound; [exact Hobs | now apply Hdirect].
+  specialize (Hdirect eq_refl). apply andb_true_iff in Hdirect as [Hdirect Htrace].
+  unfold clause_readonly. apply andb_true_iff. split; [apply andb_true_iff; split|].
+  - eapply ro_events_sound; [exact Hobs | exact Hdirect].
   - unfold final in Hafter at 1. cbn [run fst] in Hafter. rewrite rstep_final in Hafter.
     eapply agrees_all_same; eauto.
+  - eapply traced_sound; [exact Htrace|]. intros l x Hl Hx.
+    apply trun_traces in Hl as [st [op ->]].
+    destruct (is_read_op op) eqn:Er.
+    + rewrite (ro_read_forwarded _ st op Er) in Hx. destruct Hx as [<-|[]]. exact Er.
+    + rewrite (proj2 (ro_nonread_untouched _ st op Er)) in Hx. destruct Hx.
 Qed.
 
 (* ---- what was retrievable stays retrievable ---- *)
@@ -1424,36 +1575,8 @@ End Content.
 Section ImmWrapKeep.
   Variable o : oracles.
   Variable imm : bool.
-  Hypothesis Hwf : orc_wf o = true.
   Local Notation mstep := (mem14 o imm).
-  Local Notation wstep := (forget (imm_step (mem14 o imm) (hash14 o))).
   Local Notation InvO := (Inv (hash14 o) (orc_img o) (orc_idx o)).
-  Local Notation cfgI := {| immutable_tags := imm |}.
-
-  Lemma grows_final_w h : forall st r,
-    InvO st -> grows (repo_of st r) (repo_of (final wstep st h) r).
-  Proof.
-    induction h as [|op h IH]; intros st r HI; [apply grows_refl|].
-    rewrite final_cons. eapply grows_trans; [|apply IH; now apply good_w_step].
-    unfold forget. cbn [fst].
-    apply (imm_mem_grows (hash14 o) (orc_vd o) (orc_vr o) (orc_vt o) (orc_img o) (orc_idx o) cfgI
-             (hash14_inj o Hwf) st op r HI).
-  Qed.
-
-  Lemma deletes_denied_sound : forall ops obs st,
-    agrees_all obs (snd (run wstep st ops)) = true -> deletes_denied ops obs = true.
-  Proof.
-    induction ops as [|op ops IH]; intros obs st Hag; [reflexivity|].
-    destruct obs as [|ob obs]; [reflexivity|]. cbn [run] in Hag.
-    pose proof (imm_delete_denied (mem14 o imm) (hash14 o) st op) as Hden.
-    unfold forget in Hag.
-    destruct (imm_step (mem14 o imm) (hash14 o) st op) as [[s1 r] tr]. cbn [fst] in Hag.
-    fold wstep in Hag. destruct (run wstep s1 ops) as [s2 rs] eqn:Er. cbn [snd agrees_all] in Hag.
-    apply andb_true_iff in Hag as [H1 H2]. cbn [deletes_denied]. apply andb_true_iff. split.
-    - destruct (is_delete_op op); [|reflexivity]. specialize (Hden eq_refl). injection Hden as _ -> _.
-      apply agrees_model_err in H1. now subst ob.
-    - apply (IH obs s1). now rewrite Er.
-  Qed.
 
   (* a digest-addressed probe on the underlying registry, before and after *)
   Lemma content_probe_kept st st' op b a :
@@ -1481,7 +1604,354 @@ Section ImmWrapKeep.
       destruct (g_man _ _ (Hg r) _ _ E) as [bl' [E' Hd]]. rewrite E' in Ha.
       eapply same_content_desc; eauto.
   Qed.
+
+  (* what a read of a tag establishes about the state it was answered in, and what a state in
+     which an observation holds answers to a read *)
+  Lemma est_read st op obs ob :
+    InvO st -> agrees obs (snd (mstep st op)) = true -> tag_obs MImmutable (op, obs) = Some ob ->
+    is_read_op op = true -> holds st ob.
+  Proof.
+    intros HI Hag Hob Hr. destruct op; try discriminate Hr; cbn in Hob; try discriminate.
+    - (* GetTag *)
+      destruct obs as [[]| | | |]; try discriminate. injection Hob as <-.
+      destruct (gettag_obs o imm st _ _ _ _ Hag) as [tde [bl [Ht [Hm [-> ->]]]]].
+      pose proof (proj1 (inv_iman _ _ _ _ _ _ _ HI Hm)) as Hh.
+      exists tde. cbn. repeat split; [exact Ht | now symmetry |].
+      exists bl. split; [now rewrite Hh | reflexivity].
+    - (* ResolveTag *)
+      destruct obs as [[]| | | |]; try discriminate. injection Hob as <-.
+      exists d. cbn. repeat split. now apply (resolve_obs o imm).
+  Qed.
+
+  Lemma ans_read st op obs ob :
+    InvO st -> holds st ob -> agrees obs (snd (mstep st op)) = true ->
+    is_read_op op = true -> respects MImmutable ob (op, obs) = true.
+  Proof.
+    intros HI [tde [Ht [Hd Hb]]] Hag Hr.
+    destruct op; try discriminate Hr; try reflexivity; cbn [respects].
+    - (* GetTag *)
+      destruct (beqb r (to_repo ob) && beqb t (to_tag ob)) eqn:E; [|reflexivity].
+      apply andb_true_iff in E as [E1 E2]. apply beqb_eq in E1, E2. subst r t.
+      pose proof (bound_gettag o imm st _ _ tde obs HI Ht Hag) as Hg.
+      destruct (iman st (to_repo ob) (d_digest tde)) as [bl|] eqn:Hm.
+      + destruct Hg as [-> Hdig]. rewrite Hdig, Hd, beqb_refl. cbn.
+        destruct (to_bytes ob) as [b|]; [|reflexivity]. destruct Hb as [bl0 [Hm0 <-]].
+        rewrite <- Hd, Hm in Hm0. injection Hm0 as ->. apply beqb_refl.
+      + destruct Hg as [c ->]. destruct (to_bytes ob) as [b|]; [|reflexivity].
+        destruct Hb as [bl0 [Hm0 _]]. rewrite <- Hd, Hm in Hm0. discriminate.
+    - (* ResolveTag *)
+      destruct (beqb r (to_repo ob) && beqb t (to_tag ob)) eqn:E; [|reflexivity].
+      apply andb_true_iff in E as [E1 E2]. apply beqb_eq in E1, E2. subst r t.
+      rewrite (bound_resolve o imm st _ _ tde obs Ht Hag). rewrite Hd. apply beqb_refl.
+  Qed.
 End ImmWrapKeep.
+
+Lemma deletes_denied_sound {B} (b : registry B) hash : forall ops obs st,
+  agrees_all obs (snd (run (forget (imm_step b hash)) st ops)) = true -> deletes_denied ops obs = true.
+Proof.
+  induction ops as [|op ops IH]; intros obs st Hag; [reflexivity|].
+  destruct obs as [|ob obs]; [reflexivity|]. cbn [run] in Hag.
+  pose proof (imm_delete_denied b hash st op) as Hden.
+  unfold forget in Hag at 1.
+  destruct (imm_step b hash st op) as [[s1 r] tr]. cbn [fst] in Hag.
+  destruct (run (forget (imm_step b hash)) s1 ops) as [s2 rs] eqn:Er. cbn [snd agrees_all] in Hag.
+  apply andb_true_iff in Hag as [H1 H2]. cbn [deletes_denied]. apply andb_true_iff. split.
+  - destruct (is_delete_op op); [|reflexivity]. specialize (Hden eq_refl). injection Hden as _ -> _.
+    apply agrees_model_err in H1. now subst ob.
+  - apply (IH obs s1). now rewrite Er.
+Qed.
+
+Lemma imm_tagged_push_digest {B} (b : registry B) hash st r n t c m de :
+  snd (fst (imm_step b hash st (PushManifest r (n :: t) c m))) = Ok (RDesc de) -> d_digest de = hash c.
+Proof.
+  rewrite imm_step_spec. cbn [op_method immutable_declared Model.Immutable.imm_self].
+  destruct (b st (ResolveTag r (n :: t))) as [st1 r1].
+  destruct (as_desc r1) as [d1| | |]; cbn [fst snd]; try discriminate.
+  - destruct (beqb (d_digest d1) (hash c)) eqn:Eb; cbn [fst snd]; [|discriminate].
+    intros H; injection H as <-. now apply beqb_eq.
+  - destruct (b st1 (PushManifest r (n :: t) c m)) as [st2 r2].
+    destruct (as_desc r2) as [d2| | |]; cbn [fst snd]; try discriminate.
+    destruct (b st2 (ResolveTag r (n :: t))) as [st3 r3].
+    destruct (as_desc r3) as [d3| | |]; cbn [fst snd]; try discriminate.
+    destruct (beqb (d_digest d3) (hash c)) eqn:Eb; cbn [fst snd]; [|discriminate].
+    intros H; injection H as <-. now apply beqb_eq.
+Qed.
+
+Lemma push_digest_sound {B} (b : registry B) hash : forall ops obs st,
+  agrees_all obs (snd (run (forget (imm_step b hash)) st ops)) = true ->
+  forallb (push_digest_ok hash) (combine ops obs) = true.
+Proof.
+  induction ops as [|op ops IH]; intros obs st Hag; [reflexivity|].
+  destruct obs as [|ob obs]; [reflexivity|]. cbn [run] in Hag.
+  pose proof (fun r n t c m de => imm_tagged_push_digest b hash st r n t c m de) as Hd.
+  unfold forget in Hag at 1.
+  destruct (imm_step b hash st op) as [[s1 res] tr] eqn:E. cbn [fst] in Hag.
+  destruct (run (forget (imm_step b hash)) s1 ops) as [s2 rs] eqn:Er. cbn [snd agrees_all] in Hag.
+  apply andb_true_iff in Hag as [H1 H2]. cbn [combine forallb]. apply andb_true_iff. split.
+  - destruct op; try reflexivity. destruct t as [|n t]; [reflexivity|].
+    destruct ob as [[]| | | |]; try reflexivity. cbn [push_digest_ok].
+    apply agrees_obs_ok in H1. subst res. apply beqb_eq.
+    apply (Hd r n t content media d). now rewrite E.
+  - apply (IH obs s1). now rewrite Er.
+Qed.
+
+(* ---- the in-memory registry with a rival behind the door, and the Immutable wrapper over it ---- *)
+
+Definition sched_dist (sch : list (N * op)) : list (bytes * bytes) :=
+  flat_map (fun x => match snd x with
+                     | PushManifest r (n :: t) _ _ => [(r, n :: t)]
+                     | _ => []
+                     end) sch.
+
+Section RivalCorr.
+  Variable o : oracles.
+  Variable imm : bool.
+  Variable sch : list (N * op).
+  Hypothesis Hwf : orc_wf o = true.
+  Hypothesis Hsch : forallb (fun x => is_rival_op (snd x)) sch = true.
+
+  Local Notation mstep := (mem14 o imm).
+  Local Notation rb := (rival_step (mem14 o imm) sch).
+  Local Notation istep := (imm_step (rival_step (mem14 o imm) sch) (hash14 o)).
+  Local Notation wstep := (forget (imm_step (rival_step (mem14 o imm) sch) (hash14 o))).
+  Local Notation InvO := (Inv (hash14 o) (orc_img o) (orc_idx o)).
+  Local Notation cfgI := {| immutable_tags := imm |}.
+  Local Notation ds := (sched_dist sch).
+  Local Notation tagm := tagv.
+
+  Lemma fired_rival n x : In x (fired sch n) -> is_rival_op x = true.
+  Proof.
+    unfold fired. intros H. apply in_map_iff in H as [[k y] [<- Hin]].
+    apply filter_In in Hin as [Hin _]. rewrite forallb_forall in Hsch. exact (Hsch _ Hin).
+  Qed.
+
+  Lemma rival_not_delete x : is_rival_op x = true -> is_delete_op x = false.
+  Proof. destruct x; try discriminate; reflexivity. Qed.
+
+  Lemma rb_snd sn op : snd (rb sn op) = snd (mstep (fst sn) op).
+  Proof. unfold rival_step. destruct (mstep (fst sn) op) as [st1 r]. now destruct (has_method op). Qed.
+
+  Lemma rb_fst sn op :
+    fst (fst (rb sn op)) =
+    final mstep (fst (mstep (fst sn) op)) (if has_method op then fired sch (snd sn) else []).
+  Proof. unfold rival_step. destruct (mstep (fst sn) op) as [st1 r]. now destruct (has_method op). Qed.
+
+  Lemma extras_of (sn : state * N) op x :
+    In x (if has_method op then fired sch (snd sn) else []) -> is_rival_op x = true.
+  Proof. destruct (has_method op); [apply fired_rival | intros []]. Qed.
+
+  Lemma extras_inv l : forall st, InvO st -> InvO (final mstep st l).
+  Proof. apply (invariant_final mstep InvO). intros; now apply inv_step. Qed.
+
+  Lemma rb_inv sn op : InvO (fst sn) -> InvO (fst (fst (rb sn op))).
+  Proof. intros HI. rewrite rb_fst. apply extras_inv. now apply inv_step. Qed.
+
+  Lemma rb_final_inv tr : forall sn, InvO (fst sn) -> InvO (fst (final rb sn tr)).
+  Proof.
+    induction tr as [|c tr IH]; intros sn HI; [exact HI|]. rewrite final_cons. apply IH. now apply rb_inv.
+  Qed.
+
+  Lemma rb_grows sn op r :
+    InvO (fst sn) -> is_delete_op op = false ->
+    grows (repo_of (fst sn) r) (repo_of (fst (fst (rb sn op))) r).
+  Proof.
+    intros HI Hd. rewrite rb_fst. apply grows_trans with (b := repo_of (fst (mstep (fst sn) op)) r).
+    - unfold mem14. apply step_grows; [apply (hash14_inj o Hwf) | exact HI | now rewrite <- is_delete_op_is_delete].
+    - apply (trace_grows (hash14 o) (orc_vd o) (orc_vr o) (orc_vt o) (orc_img o) (orc_idx o) cfgI (hash14_inj o Hwf)).
+      + now apply inv_step.
+      + intros x Hx. rewrite <- is_delete_op_is_delete. apply rival_not_delete. eapply extras_of; eauto.
+  Qed.
+
+  Lemma rb_final_grows tr : forall sn r,
+    InvO (fst sn) -> (forall c, In c tr -> is_delete_op c = false) ->
+    grows (repo_of (fst sn) r) (repo_of (fst (final rb sn tr)) r).
+  Proof.
+    induction tr as [|c tr IH]; intros sn r HI Hnd; [apply grows_refl|].
+    rewrite final_cons. eapply grows_trans.
+    - apply rb_grows; [exact HI | apply Hnd; now left].
+    - apply IH; [now apply rb_inv | intros c' Hc'; apply Hnd; now right].
+  Qed.
+
+  Lemma good_w_step sn op : InvO (fst sn) -> InvO (fst (fst (wstep sn op))).
+  Proof. intros HI. unfold forget. rewrite imm_state_replay. now apply rb_final_inv. Qed.
+
+  Lemma good_w_final h : forall sn, InvO (fst sn) -> InvO (fst (final wstep sn h)).
+  Proof.
+    induction h as [|op h IH]; intros sn HI; [exact HI|]. rewrite final_cons. apply IH. now apply good_w_step.
+  Qed.
+
+  Lemma grows_w sn op r :
+    InvO (fst sn) -> grows (repo_of (fst sn) r) (repo_of (fst (fst (wstep sn op))) r).
+  Proof.
+    intros HI. unfold forget. rewrite imm_state_replay. apply rb_final_grows; [exact HI|].
+    intros c Hc. eapply imm_step_no_delete; eauto.
+  Qed.
+
+  Lemma grows_final_w h : forall sn r,
+    InvO (fst sn) -> grows (repo_of (fst sn) r) (repo_of (fst (final wstep sn h)) r).
+  Proof.
+    induction h as [|op h IH]; intros sn r HI; [apply grows_refl|].
+    rewrite final_cons. eapply grows_trans; [apply grows_w; exact HI | apply IH; now apply good_w_step].
+  Qed.
+
+  (* the binding of a tag no rival pushes under: the door-keeper's registry meets, for that tag,
+     what Proofs/Immutable.v (Section ImmutableAt) asks of a backend *)
+  Definition tagr (r t : bytes) (sn : state * N) : option bytes := tagm (fst sn) r t.
+
+  Lemma extras_frame r t l : forall st,
+    (forall x, In x l -> is_delete_op x = false /\ touches x r t = false) ->
+    tagm (final mstep st l) r t = tagm st r t.
+  Proof.
+    induction l as [|a l IH]; intros st H; [reflexivity|].
+    rewrite final_cons, IH by (intros; apply H; now right).
+    destruct (H a (or_introl eq_refl)). unfold mem14. now apply mem_frame.
+  Qed.
+
+  Lemma rival_untouched r t n x : undisturbed ds r t = true -> In x (fired sch n) -> touches x r t = false.
+  Proof.
+    intros Hu Hx. unfold fired in Hx. apply in_map_iff in Hx as [[k y] [<- Hin]].
+    apply filter_In in Hin as [Hin _]. cbn [snd].
+    destruct y; try reflexivity. destruct t0 as [|n0 t0]; [reflexivity|]. cbn [touches].
+    destruct (beqb r0 r && beqb (n0 :: t0) t) eqn:E; [|reflexivity]. exfalso.
+    unfold undisturbed in Hu. apply negb_true_iff in Hu.
+    enough (existsb (fun rt => beqb (fst rt) r && beqb (snd rt) t) ds = true) by congruence.
+    apply existsb_exists. exists (r0, n0 :: t0). split; [|exact E].
+    unfold sched_dist. apply in_flat_map. exists (k, PushManifest r0 (n0 :: t0) content media).
+    split; [exact Hin | now left].
+  Qed.
+
+  Lemma rb_resolve_at r t sn :
+    match tagr r t sn with
+    | Some d => exists de, snd (rb sn (ResolveTag r t)) = Ok (RDesc de) /\ d_digest de = d
+    | None => exists e, snd (rb sn (ResolveTag r t)) = Err e
+    end.
+  Proof. rewrite rb_snd. unfold tagr, mem14. apply mem_resolve_answers. Qed.
+
+  Lemma rb_frame_at r t : undisturbed ds r t = true -> forall sn op,
+    is_delete_op op = false -> touches op r t = false -> tagr r t (fst (rb sn op)) = tagr r t sn.
+  Proof.
+    intros Hu sn op Hd Ht. unfold tagr. rewrite rb_fst, extras_frame; [unfold mem14; now apply mem_frame|].
+    intros x Hx. split; [apply rival_not_delete; eapply extras_of; eauto|].
+    destruct (has_method op); [eapply rival_untouched; eauto | destruct Hx].
+  Qed.
+
+  (* an observation about a tag no rival pushes under holds in a state *)
+  Definition holdsr (sn : state * N) (ob : tagobs) : Prop :=
+    undisturbed ds (to_repo ob) (to_tag ob) = true /\ holds (fst sn) ob.
+
+  Lemma holds_step_w sn op ob : InvO (fst sn) -> holdsr sn ob -> holdsr (fst (wstep sn op)) ob.
+  Proof.
+    intros HI [Hu [tde [Ht [Hd Hb]]]]. split; [exact Hu|].
+    pose proof (imm_binding_kept_at rb (hash14 o) (to_repo ob) (to_tag ob) (tagr (to_repo ob) (to_tag ob))
+                  (rb_resolve_at _ _) (rb_frame_at _ _ Hu) sn op (to_digest ob)) as Hk.
+    unfold tagr, tagv in Hk. rewrite Ht in Hk. cbn in Hk. specialize (Hk (f_equal Some Hd)).
+    pose proof (grows_w sn op (to_repo ob) HI) as Hg. unfold forget in *.
+    destruct (itag (fst (fst (fst (istep sn op)))) (to_repo ob) (to_tag ob)) as [tde'|] eqn:Et'; [|discriminate].
+    cbn in Hk. injection Hk as Hk. exists tde'. split; [exact Et'|]. split; [exact Hk|].
+    destruct (to_bytes ob) as [b|]; [|exact I]. destruct Hb as [bl [Hm Hdata]].
+    rewrite iman_repo_of in Hm. destruct (g_man _ _ Hg _ _ Hm) as [bl' [Hm' Hd']].
+    exists bl'. rewrite iman_repo_of. split; [exact Hm' | congruence].
+  Qed.
+
+  (* a read through the wrapper is the registry's answer in the state the call met *)
+  Lemma wstep_read_snd sn op : is_read_op op = true -> snd (wstep sn op) = snd (mstep (fst sn) op).
+  Proof.
+    intros Hr. unfold forget. rewrite imm_forwarded by (destruct op; try discriminate; reflexivity).
+    cbn [fst snd]. apply rb_snd.
+  Qed.
+
+  Lemma establishes_w sn op obs ob :
+    InvO (fst sn) -> agrees obs (snd (wstep sn op)) = true -> tag_obs_d ds MImmutable (op, obs) = Some ob ->
+    holdsr (fst (wstep sn op)) ob.
+  Proof.
+    intros HI Hag Hob. unfold tag_obs_d in Hob.
+    destruct (tag_obs MImmutable (op, obs)) as [ob'|] eqn:Eo; [|discriminate].
+    destruct (undisturbed ds (to_repo ob') (to_tag ob')) eqn:Hu; [|discriminate]. injection Hob as ->.
+    destruct (is_read_op op) eqn:Er.
+    - apply holds_step_w; [exact HI|]. split; [exact Hu|].
+      rewrite (wstep_read_snd sn op Er) in Hag. eapply est_read; eauto.
+    - destruct op; try discriminate Er; cbn in Eo; try discriminate Eo.
+      destruct obs as [[]| | | |]; try discriminate. destruct t as [|n t]; [discriminate|].
+      injection Eo as <-. cbn [to_repo to_tag] in Hu. split; [exact Hu|].
+      apply agrees_obs_ok in Hag. unfold forget in *.
+      destruct (imm_push_binds_at rb (hash14 o) r (n :: t) (tagr r (n :: t)) (rb_resolve_at _ _) (rb_frame_at _ _ Hu)
+                  sn content media d ltac:(discriminate) Hag) as [Hd Hb].
+      unfold tagr, tagv in Hb.
+      destruct (itag (fst (fst (fst (istep sn (PushManifest r (n :: t) content media))))) r (n :: t)) as [tde'|] eqn:Et';
+        [|discriminate].
+      cbn in Hb. injection Hb as Hb.
+      exists tde'. cbn. repeat split; [exact Et' | congruence].
+  Qed.
+
+  Lemma answers_w sn op obs ob :
+    InvO (fst sn) -> holdsr sn ob -> agrees obs (snd (wstep sn op)) = true ->
+    respects MImmutable ob (op, obs) = true.
+  Proof.
+    intros HI [Hu HH] Hag. destruct (is_read_op op) eqn:Er.
+    - rewrite (wstep_read_snd sn op Er) in Hag. eapply ans_read; eauto.
+    - destruct op; try discriminate Er; try reflexivity. cbn [respects].
+      destruct HH as [tde [Ht [Hd Hb]]].
+      destruct t as [|n t]; [reflexivity|].
+      destruct (beqb r (to_repo ob) && beqb (n :: t) (to_tag ob)) eqn:E; [|reflexivity].
+      apply andb_true_iff in E as [E1 E2]. apply beqb_eq in E1, E2. subst r. rewrite <- E2 in Ht.
+      unfold forget in Hag. rewrite imm_step_spec in Hag.
+      cbn [op_method immutable_declared Model.Immutable.imm_self] in Hag.
+      pose proof (rb_snd sn (ResolveTag (to_repo ob) (n :: t))) as Hs.
+      unfold mem14 in Hs at 2. rewrite resolve_tag_res, Ht in Hs.
+      destruct (rb sn (ResolveTag (to_repo ob) (n :: t))) as [sn1 r1]. cbn [snd] in Hs. subst r1.
+      cbn [as_desc] in Hag.
+      destruct (beqb (d_digest tde) (hash14 o content)); cbn [fst snd] in Hag.
+      + apply agrees_model_desc in Hag. subst obs. rewrite Hd, beqb_refl. cbn.
+        now destruct (to_bytes ob).
+      + apply agrees_model_err in Hag. now subst obs.
+  Qed.
+
+  (* the registry itself, read directly (the snapshots): no call counted, no rival woken *)
+  Definition dstep : registry (state * N) := fun sn op =>
+    if is_read_op op then (fst (mstep (fst sn) op), snd sn, snd (mstep (fst sn) op)) else (sn, OutOfFuel).
+
+  Lemma dstep_fst sn op : fst (dstep sn op) = sn.
+  Proof.
+    unfold dstep. destruct (is_read_op op) eqn:E; [|reflexivity]. cbn [fst].
+    rewrite (is_read_op_pure o imm (fst sn) op E). now destruct sn.
+  Qed.
+
+  Lemma dstep_snd sn op obs : agrees obs (snd (dstep sn op)) = true ->
+    is_read_op op = true /\ agrees obs (snd (mstep (fst sn) op)) = true.
+  Proof.
+    unfold dstep. destruct (is_read_op op); cbn [snd]; [auto|]. destruct obs; discriminate.
+  Qed.
+
+  Lemma dstep_reads h : forall sn,
+    forallb is_read_op h = true -> run dstep sn h = (sn, snd (run mstep (fst sn) h)).
+  Proof.
+    induction h as [|x h IH]; intros sn Hr; [reflexivity|]. cbn [forallb] in Hr.
+    apply andb_true_iff in Hr as [Hx Hr]. cbn [run].
+    pose proof (dstep_fst sn x) as Hf. unfold dstep in *. rewrite Hx in *.
+    cbn [fst] in Hf. rewrite Hf. rewrite (IH sn Hr).
+    pose proof (is_read_op_pure o imm (fst sn) x Hx) as Hp.
+    destruct (mstep (fst sn) x) as [s1 r]. cbn [fst snd] in *. subst s1.
+    now destruct (run mstep (fst sn) h).
+  Qed.
+
+  Definition stepk (k : bool) : registry (state * N) := if k then wstep else dstep.
+
+  Theorem all_later_r kops obs sn :
+    InvO (fst sn) -> agrees_all obs (snd (runk stepk sn kops)) = true ->
+    all_later (pair_ok_d ds MImmutable) (combine (map snd kops) obs) = true.
+  Proof.
+    apply (all_later_okk (state * N) bool stepk (fun sn => InvO (fst sn)) MImmutable (tag_obs_d ds MImmutable) holdsr).
+    - intros [|] st op HI; cbn [stepk]; [now apply good_w_step | now rewrite dstep_fst].
+    - intros [|] st op ob HI HH; cbn [stepk]; [now apply holds_step_w | now rewrite dstep_fst].
+    - intros [|] st op ob0 ob HI Hag Hob; cbn [stepk] in *; [now apply (establishes_w st op ob0 ob)|].
+      rewrite dstep_fst. apply dstep_snd in Hag as [Hr Hag].
+      unfold tag_obs_d in Hob. destruct (tag_obs MImmutable (op, ob0)) as [ob'|] eqn:Eo; [|discriminate].
+      destruct (undisturbed ds (to_repo ob') (to_tag ob')) eqn:Hu; [|discriminate]. injection Hob as ->.
+      split; [exact Hu|]. eapply est_read; eauto.
+    - intros [|] st op ob0 ob HI HH Hag; cbn [stepk] in *; [eapply answers_w; eauto|].
+      apply dstep_snd in Hag as [Hr Hag]. destruct HH as [_ HH]. eapply ans_read; eauto.
+  Qed.
+End RivalCorr.
 
 Lemma run_snd_app {St} (f : registry St) s a b :
   snd (run f s (a ++ b)) = snd (run f s a) ++ snd (run f (final f s a) b).
@@ -1507,60 +1977,139 @@ Lemma probes_all_read (ps : list op) :
   forallb is_read_op ps = true -> forall op, In op ps -> mem_read op = true.
 Proof. intros H op Hin. rewrite forallb_forall in H. rewrite <- is_read_op_mem_read. now apply H. Qed.
 
-Local Notation wst o imm := (forget (imm_step (mem14 o imm) (hash14 o))).
-
-Lemma corr_immutable c : c_mech c = MImmutable -> model_agrees c = true ->
-  clause_tags c && deletes_denied (c_ops c) (c_obs c) && clause_keep c = true.
+(* what model_agrees_imm says, unpacked *)
+Lemma model_agrees_imm_facts c : model_agrees_imm c = true ->
+  let under := under_step c in
+  let s1 := final under init (c_setup c) in
+  let tr := trun (imm_rival c) (s1, 0%N) (c_ops c) in
+  orc_wf (c_orc c) = true /\
+  forallb is_read_op (probe_ops c) = true /\
+  agrees_all (c_before c) (snd (run under s1 (probe_ops c))) = true /\
+  forallb (fun x => is_rival_op (snd x)) (c_rivals c) = true /\
+  c_threads c = [] /\
+  agrees_all (c_obs c) (map fst (snd tr)) = true /\
+  trace_agrees (c_trace c) (map snd (snd tr)) = true /\
+  agrees_all (c_after c) (snd (run under (fst (fst tr)) (probe_ops c))) = true.
 Proof.
-  intros Hm H. apply model_agrees_facts in H. cbn zeta in H.
-  destruct H as (Hwf & Hreads & Hsetup & Hbefore & Hobs & _ & Hthreads & M & Hil & HM & Hafter).
-  pose proof (Hthreads ltac:(congruence)) as Hth. rewrite Hth in Hil.
-  pose proof (interleave_nil _ Hil) as ->. cbn [map] in *.
-  unfold mech_step, under_step, cfg_imm, wrapped in *. rewrite Hm in *.
-  set (o := c_orc c) in *. set (imm := c_under_imm c) in *.
+  unfold model_agrees_imm, final. cbn zeta.
+  destruct (run (under_step c) init (c_setup c)) as [s1 rs]. cbn [fst snd].
+  destruct (trun (imm_rival c) (s1, 0%N) (c_ops c)) as [s2 rt]. cbn [fst snd].
+  intros H.
+  apply andb_true_iff in H as [H H7]. apply andb_true_iff in H as [H H6].
+  apply andb_true_iff in H as [H H5]. apply andb_true_iff in H as [H H4].
+  apply andb_true_iff in H as [H H3]. apply andb_true_iff in H as [H1 H2].
+  apply andb_true_iff in H7 as [H7 H9]. apply andb_true_iff in H7 as [H7 H8].
+  repeat split; try assumption. now destruct (c_threads c).
+Qed.
+
+Lemma pair_ok_d_tag ds m op b e :
+  is_tag_probe op = true -> tag_undisturbed ds op = true ->
+  pair_ok_d ds m (op, b) e = pair_ok m (op, b) e.
+Proof.
+  intros Hp Hu. unfold pair_ok_d, pair_by, pair_ok, tag_obs_d.
+  destruct op; try discriminate; cbn [tag_undisturbed] in Hu; cbn [tag_obs];
+    destruct b as [[]| | | |]; try reflexivity; cbn [to_repo to_tag]; now rewrite Hu.
+Qed.
+
+Lemma In_combine_nth {A B} (l1 : list A) (l2 : list B) x y :
+  In (x, y) (combine l1 l2) -> exists i, nth_error l1 i = Some x /\ nth_error l2 i = Some y.
+Proof.
+  revert l2; induction l1 as [|a l1 IH]; intros [|b l2] H; cbn in H; try contradiction.
+  destruct H as [H|H].
+  - injection H as -> ->. now exists 0%nat.
+  - destruct (IH _ H) as [i Hi]. now exists (S i).
+Qed.
+
+(* a snapshot of a state that meets the registry's invariant is faithful *)
+Lemma faithful_sound o imm st ps obs :
+  Inv (hash14 o) (orc_img o) (orc_idx o) st ->
+  forallb is_read_op ps = true ->
+  agrees_all obs (snd (run (mem14 o imm) st ps)) = true ->
+  forallb (faithful o) (combine ps obs) = true.
+Proof.
+  intros HI Hr Hag. apply forallb_forall. intros [op ob] Hin.
+  destruct (In_combine_nth _ _ _ _ Hin) as [i [Hp Hb]].
+  destruct (agrees_all_nth _ _ _ _ Hag Hb) as [m [Hm Ha]].
+  rewrite (run_reads_nth o imm _ st i _ Hr Hp) in Hm. injection Hm as <-.
+  unfold mem14 in Ha. destruct op; try reflexivity; cbn [faithful];
+    destruct ob as [[]| | | |]; try reflexivity.
+  - rewrite get_blob_res in Ha. destruct (iblob st r d) as [bl|] eqn:E; [|discriminate].
+    apply agrees_obs_ok in Ha. injection Ha as <- <-. cbn [blob_desc d_digest].
+    rewrite (inv_iblob _ _ _ _ _ _ _ HI E). now rewrite beqb_refl.
+  - rewrite get_manifest_res in Ha. destruct (iman st r d) as [bl|] eqn:E; [|discriminate].
+    apply agrees_obs_ok in Ha. injection Ha as <- <-. cbn [blob_desc d_digest].
+    rewrite (proj1 (inv_iman _ _ _ _ _ _ _ HI E)). now rewrite beqb_refl.
+Qed.
+
+Lemma corr_immutable c : c_mech c = MImmutable -> model_agrees_imm c = true ->
+  clause_tags c && deletes_denied (c_ops c) (c_obs c) && clause_keep c
+  && traced_all (fun o => negb (is_delete_op o)) c && clause_faithful c
+  && forallb (push_digest_ok (hash14 (c_orc c))) (combine (c_ops c) (c_obs c)) = true.
+Proof.
+  intros Hm H. apply model_agrees_imm_facts in H. cbn zeta in H.
+  destruct H as (Hwf & Hreads & Hbefore & Hsch & Hth & Hobs & Htrace & Hafter).
+  unfold imm_rival, under_step, cfg_imm, wrapped in *. rewrite Hm in *.
+  set (o := c_orc c) in *. set (imm := c_under_imm c) in *. set (sch := c_rivals c) in *.
   set (s1 := final (mem14 o imm) init (c_setup c)) in *.
-  set (s2 := final (wst o imm) s1 (c_ops c)) in *.
-  change (final (mem14 o imm) s2 []) with s2 in Hafter.
+  set (ist := imm_step (rival_step (mem14 o imm) sch) (hash14 o)) in *.
+  pose proof (run_forget ist (c_ops c) (s1, 0%N)) as Hrf.
+  destruct (trun ist (s1, 0%N) (c_ops c)) as [s2 rt] eqn:Etr. cbn [fst snd] in *.
   pose proof (inv_reach o imm (c_setup c)) as HI1. fold s1 in HI1.
-  pose proof (probes_all_read _ Hreads) as Hpr.
+  assert (Hobs' : agrees_all (c_obs c) (snd (run (forget ist) (s1, 0%N) (c_ops c))) = true).
+  { now rewrite Hrf. }
+  assert (Hs2 : final (forget ist) (s1, 0%N) (c_ops c) = s2).
+  { unfold final. now rewrite Hrf. }
   pose proof (agrees_run_length _ _ _ _ Hbefore) as Lb.
-  pose proof (agrees_run_length _ _ _ _ Hobs) as Lo.
+  pose proof (agrees_run_length _ _ _ _ Hobs') as Lo.
   pose proof (agrees_run_length _ _ _ _ Hafter) as La.
   (* the ordered-pairs fact over probes, history, probes *)
-  assert (Hal : all_later (pair_ok MImmutable)
+  assert (Hal : all_later (pair_ok_d (dist c) MImmutable)
                   (combine (probe_ops c) (c_before c) ++ combine (c_ops c) (c_obs c)
                    ++ combine (probe_ops c) (c_after c)) = true).
   { rewrite <- !combine_app by assumption.
-    apply (all_later_w o imm Hwf _ _ s1 HI1).
-    rewrite !run_snd_app.
-    rewrite (wstep_reads o imm (probe_ops c) s1 Hpr).
-    assert (Hs : final (wst o imm) s1 (probe_ops c) = s1).
-    { unfold final. rewrite (wstep_reads o imm (probe_ops c) s1 Hpr).
-      apply (run_reads_state o imm _ s1 Hreads). }
-    rewrite Hs. fold s2. rewrite (wstep_reads o imm (probe_ops c) s2 Hpr).
+    pose proof (all_later_r o imm sch Hwf Hsch
+                  (map (pair false) (probe_ops c) ++ map (pair true) (c_ops c) ++ map (pair false) (probe_ops c))
+                  (c_before c ++ c_obs c ++ c_after c) (s1, 0%N) HI1) as Hk.
+    rewrite !map_app, !map_map in Hk. cbn [snd] in Hk. rewrite !map_id in Hk. apply Hk. clear Hk.
+    rewrite runk_snd_app, runk_map. cbn [stepk].
+    rewrite (dstep_reads o imm (probe_ops c) (s1, 0%N) Hreads). cbn [fst snd].
+    rewrite runk_snd_app, !runk_map. cbn [stepk].
+    fold ist. rewrite Hrf. cbn [fst snd].
+    rewrite (dstep_reads o imm (probe_ops c) s2 Hreads). cbn [snd].
     apply agrees_all_app'; [exact Hbefore|]. apply agrees_all_app'; assumption. }
-  apply andb_true_iff. split; [apply andb_true_iff; split|].
-  - apply (clause_tags_from_linearization c []); [rewrite Hth; now constructor|].
+  apply andb_true_iff. split; [|eapply push_digest_sound; eauto].
+  apply andb_true_iff. split; [apply andb_true_iff; split; [apply andb_true_iff; split; [apply andb_true_iff; split|]|]|].
+  5: { unfold clause_faithful. apply andb_true_iff. split.
+       - apply (faithful_sound o imm s1); assumption.
+       - apply (faithful_sound o imm (fst s2)); try assumption.
+         rewrite <- Hs2. apply (good_w_final o imm sch (c_ops c) (s1, 0%N) HI1). }
+  - apply (clause_tags_from_linearization c []); [rewrite Hth; now constructor| |reflexivity].
     unfold prefix_events, suffix_events. rewrite Hm. cbn [app]. rewrite <- app_assoc. exact Hal.
-  - eapply (deletes_denied_sound o imm); eauto.
+  - eapply deletes_denied_sound; eauto.
   - unfold clause_keep. rewrite Hm. apply keep3_intro.
     + rewrite map_length. unfold probe_ops in Lb. now rewrite map_length in Lb.
     + congruence.
     + intros i s b a Hs Hb Ha ->. rewrite nth_error_map in Hs.
       destruct (nth_error (c_probes c) i) as [p|] eqn:Ep; [|discriminate]. cbn in Hs. injection Hs as Hs.
+      apply andb_true_iff in Hs as [Hs Hund].
       assert (Hop : nth_error (probe_ops c) i = Some (p_op p)).
       { unfold probe_ops. now rewrite nth_error_map, Ep. }
       destruct (agrees_all_nth _ _ _ _ Hbefore Hb) as [mb [Hmb Hagb]].
       destruct (agrees_all_nth _ _ _ _ Hafter Ha) as [ma [Hma Haga]].
       rewrite (run_reads_nth o imm _ s1 i _ Hreads Hop) in Hmb. injection Hmb as <-.
-      rewrite (run_reads_nth o imm _ s2 i _ Hreads Hop) in Hma. injection Hma as <-.
+      rewrite (run_reads_nth o imm _ (fst s2) i _ Hreads Hop) in Hma. injection Hma as <-.
       destruct (is_tag_probe (p_op p)) eqn:Etp.
       * eapply (pair_same_content o MImmutable imm s1); eauto.
+        rewrite <- (pair_ok_d_tag (dist c)) by assumption.
         eapply all_later_pick; [exact Hal | |].
         -- eapply nth_error_combine_In; eauto.
         -- apply in_or_app. right. eapply nth_error_combine_In; eauto.
-      * eapply (content_probe_kept o imm s1 s2); eauto.
-        intros r. apply (grows_final_w o imm Hwf). exact HI1.
+      * eapply (content_probe_kept o imm s1 (fst s2)); eauto.
+        intros r. rewrite <- Hs2. apply (grows_final_w o imm sch Hwf Hsch (c_ops c) (s1, 0%N) r HI1).
+  - eapply traced_sound; [exact Htrace|]. intros l x Hl Hx.
+    replace rt with (snd (trun ist (s1, 0%N) (c_ops c))) in Hl by now rewrite Etr.
+    apply trun_traces in Hl as [st [op ->]].
+    rewrite (imm_step_no_delete _ _ st op x Hx). reflexivity.
 Qed.
 
 (* ---- immutable-tags mode: the walk from the tags, recorded by the harness, is a walk in the model ---- *)
@@ -1673,14 +2222,6 @@ Qed.
 (* ---- immutable-tags mode: a snapshot of a reachable state is closed under the direct references
         of tagged manifests ---- *)
 
-Lemma In_combine_nth {A B} (l1 : list A) (l2 : list B) x y :
-  In (x, y) (combine l1 l2) -> exists i, nth_error l1 i = Some x /\ nth_error l2 i = Some y.
-Proof.
-  revert l2; induction l1 as [|a l1 IH]; intros [|b l2] H; cbn in H; try contradiction.
-  destruct H as [H|H].
-  - injection H as -> ->. now exists 0%nat.
-  - destruct (IH _ H) as [i Hi]. now exists (S i).
-Qed.
 
 Section Closed.
   Variable o : oracles.
@@ -1732,8 +2273,8 @@ Section Closed.
   Qed.
 End Closed.
 
-Lemma corr_immtags c : c_mech c = MImmTags -> model_agrees c = true ->
-  clause_tags c && clause_keep c && clause_closed c = true.
+Lemma corr_immtags c : c_mech c = MImmTags -> model_agrees_seq c = true ->
+  clause_tags c && clause_keep c && clause_closed c && clause_faithful c = true.
 Proof.
   intros Hm H. apply model_agrees_facts in H. cbn zeta in H.
   destruct H as (Hwf & Hreads & Hsetup & Hbefore & Hobs & _ & _ & M & Hil & HM & Hafter).
@@ -1758,14 +2299,22 @@ Proof.
     rewrite !run_snd_app. fold s1.
     rewrite (run_reads_state o true (probe_ops c) s1 Hreads). fold s2. fold s3.
     repeat (apply agrees_all_app'; [assumption|]). assumption. }
-  apply andb_true_iff. split; [apply andb_true_iff; split|].
+  apply andb_true_iff. split; [apply andb_true_iff; split; [apply andb_true_iff; split|]|].
+  4: { unfold clause_faithful. apply andb_true_iff. split.
+       - apply (faithful_sound o true s1); assumption.
+       - apply (faithful_sound o true s3); try assumption.
+         unfold s3, s2, s1. rewrite <- !final_app. apply inv_reach. }
   3: { (* both snapshots are snapshots of reachable states *)
     unfold clause_closed. apply andb_true_iff. split.
     - apply (closed_snapshot_sound o s1); [|exact Hreads | exact Hbefore].
       intros r. apply (tagkids_reach o Hwf).
     - apply (closed_snapshot_sound o s3); [|exact Hreads | exact Hafter].
       intros r. unfold s3, s2, s1. rewrite <- !final_app. apply (tagkids_reach o Hwf). }
-  - apply (clause_tags_from_linearization c M Hil). rewrite Hm. exact Hal.
+  - apply (clause_tags_from_linearization c M Hil); rewrite Hm.
+    + eapply all_later_impl; [apply pair_ok_weaken | exact Hal].
+    + eapply all_later_subseq; [|exact Hal].
+      change M with ([] ++ M) at 1. apply subseq_app; [apply subseq_nil|].
+      rewrite <- (app_nil_r M) at 1. apply subseq_app; [apply subseq_refl | apply subseq_nil].
   - unfold clause_keep. rewrite Hm.
     assert (Lj : length (justified c) = length (c_probes c)).
     { apply justified_length. unfold probe_ops in Lb. rewrite map_length in Lb. congruence. }
@@ -1816,7 +2365,7 @@ Qed.
 
 Lemma corr_sound c : model_agrees c = true -> obs_ok c = true.
 Proof.
-  intros H. unfold obs_ok. destruct (c_mech c) eqn:Hm.
+  unfold model_agrees, obs_ok. destruct (c_mech c) eqn:Hm; intros H.
   - now apply corr_readonly.
   - now apply corr_immutable.
   - now apply corr_immtags.
